@@ -27,13 +27,15 @@ package suites
 //
 // Oracle (on the implementation alone): `liveness` a delimiter PING is not answered although
 // Connect has not returned / Connect returned nil / with an error that is neither
-// ErrParseEvent nor an ERROR event; `wire-crlf` a written line without CRLF terminator or with
+// ErrParseEvent nor an ERROR event / with ErrParseEvent on a line of the message grammar; `wire-crlf` a written line without CRLF terminator or with
 // CR/LF inside; `wire-unparsable` a written line that ParseEvent rejects; `structure`
-// StructuralInvariant at the end; `panic` RecoverFunc fired; `process-death` (child died).
+// StructuralInvariant at the end; `panic` RecoverFunc fired; `wedge` the state lock is left
+// held; `process-death` (child died, or did not finish within 60 s).
 
 import (
 	"errors"
 	"math/rand"
+	"os"
 	"runtime"
 	"sort"
 	"strconv"
@@ -62,6 +64,18 @@ func reactLines(raw string) []string {
 		raw = raw[i+1:]
 	}
 	return out
+}
+
+// reactParse is ParseEvent for the harness's own bookkeeping (placement of unparsable lines,
+// detection of 001, re-parsing what the client wrote): a parser that panics must show as the
+// death of the CLIENT's process, not of the generator.
+func reactParse(l string) (e *girc.Event) {
+	defer func() {
+		if recover() != nil {
+			e = nil
+		}
+	}()
+	return girc.ParseEvent(l)
 }
 
 // reactProject: see the head of the file (Driver/DrvC05r.v proj_line).
@@ -221,7 +235,7 @@ func reactRun(nick, user, version string, lines []string) (obs, oracle, sig stri
 	kinds := map[string]bool{}
 	for i, line := range lines {
 		genBefore := atomic.LoadInt64(&x.general)
-		p := girc.ParseEvent(line)
+		p := reactParse(line)
 		sleeper := p != nil && p.Command == "001"  // handleConnect runs in the background and sleeps 2 s
 		welcome := sleeper && len(p.Params) > 0 // ... after storing the nickname and notifying
 		if sleeper {
@@ -276,6 +290,11 @@ func reactRun(nick, user, version string, lines []string) (obs, oracle, sig stri
 				fail("liveness: Connect returned nil although nobody closed the client (line " + strconv.Itoa(i) + ")")
 			case errors.As(x.derr, &pe):
 				end = "parsefail:" + strconv.Itoa(i)
+				// a line of the message grammar (Spec/Grammar.v, recogniser transcribed in
+				// c02_recognise.go) must not cost the connection
+				if a, ok := cdParseAst(line); ok && a.wf() {
+					fail("liveness: the client dropped the connection (ErrParseEvent) on a grammatical line: " + strconv.Quote(line))
+				}
 			case errors.As(x.derr, &ee):
 				end = "closed:" + strconv.Itoa(i)
 			default:
@@ -309,7 +328,7 @@ func reactRun(nick, user, version string, lines []string) (obs, oracle, sig stri
 			if strings.ContainsAny(body, "\r\n") {
 				fail("wire-crlf: CR or LF inside a written line: " + strconv.Quote(l))
 			}
-			if pe := girc.ParseEvent(body); pe == nil {
+			if pe := reactParse(body); pe == nil {
 				fail("wire-unparsable: the client wrote a line ParseEvent rejects: " + strconv.Quote(body))
 			} else {
 				kinds[pe.Command] = true
@@ -324,10 +343,19 @@ func reactRun(nick, user, version string, lines []string) (obs, oracle, sig stri
 		}
 		if x.ss.PanicCount() > 0 {
 			fail("panic: a handler panicked on line " + strconv.Itoa(i) + " " + strconv.Quote(line))
+			break // the handler may have died with the state lock held; nothing after it is meaningful
 		}
 		if end != "alive" {
 			break
 		}
+	}
+	if !StateLockFree(x.ss.C, 150*time.Millisecond) {
+		// reading the state would block for ever; the client is abandoned, not stopped
+		healthy = false
+		if len(bad) == 0 {
+			fail("wedge: the state lock is still held after the session")
+		}
+		return strings.Join(perLine, "|") + ";end=" + end + ";S=WEDGED", bad[0], "wedged"
 	}
 	tmp, en := x.ss.C.VerifCapState()
 	obs = strings.Join(perLine, "|") + ";end=" + end + ";S=" + DumpState(x.ss.C) + ";t=" + HexList(tmp) + ";e=" + HexList(en)
@@ -372,7 +400,7 @@ func reactGenRaw(r *rand.Rand, prev []string) string {
 	src := func() string {
 		return ":" + caseVariant(r, hostNicks[r.Intn(len(hostNicks)-2)]) + Pick(r, "", "!u@h.example", "!~id@10.0.0.1", "@h")
 	}
-	switch r.Intn(20) {
+	switch r.Intn(21) {
 	case 0, 1, 2, 3, 4, 5: // the hostile event generator of c05.go, rendered to a line
 		for k := 0; k < 8; k++ {
 			if l, ok := hostileEvent(r).Line(); ok {
@@ -413,7 +441,7 @@ func reactGenRaw(r *rand.Rand, prev []string) string {
 		}
 		return src() + " " + Pick(r, "PRIVMSG", "PRIVMSG", "PRIVMSG", "NOTICE", "privmsg") + " " + Pick(r, "me", "#chan", "ME") + " :\x01" + tag + text + "\x01\r\n"
 	case 11: // PING tokens that the wire alters or keeps
-		return Pick(r, "PING", "PING", ":srv PING", "ping") + " " + Pick(r, "tok", ":two words", ":", "a b", ":\xff\xfe", ":caf\xc3\xa9", ":x\ry", ":"+reactLongText(r), "a :b c", ":\x00nul", "::") + "\r\n"
+		return Pick(r, "PING", "PING", ":srv PING", "ping") + " " + Pick(r, "tok", ":two words", ":", "a b", ":\xff\xfe", ":caf\xc3\xa9", ":x\ry", ":a\r\rb", "\r\r\rz", ":"+reactLongText(r), "a :b c", ":\x00nul", "::") + "\r\n"
 	case 12: // limits and options
 		var ps []string
 		for i := 1 + r.Intn(3); i > 0; i-- {
@@ -437,12 +465,25 @@ func reactGenRaw(r *rand.Rand, prev []string) string {
 		case 2:
 			return "PRIVMSG me :" + RandBytes(r, 600+r.Intn(4000), "ab \xc3\xa9") + "\r\n"
 		case 3:
-			return Pick(r, "\x00\x00\r\n", "a\rb\r\n", "\r\r\n", "  \r\n", "@ \r\n", ": x\r\n", "@a :b\r\n", "@a=b\r\n", ":src\r\n", "\xff\xfe\xfd\r\n", "A\r\n", "\r\n", "::\r\n", "@;;; : :\r\n")
+			return Pick(r, "\x00\x00\r\n", "a\rb\r\n", "\r\r\n", "  \r\n", "@ \r\n", ": x\r\n", "@a :b\r\n", "@a=b\r\n", ":src\r\n", "\xff\xfe\xfd\r\n", "A\r\n", ":a@b!c PRIVMSG me :hi\r\n", ":@!x JOIN #chan\r\n", ":!@ NICK y\r\n", "\r\n", "::\r\n", "@;;; : :\r\n")
 		case 4:
 			return cdGenLine(r)
 		default:
 			return RandBytes(r, 1+r.Intn(6), "\r\n xX:@")
 		}
+	case 19: // minimal sections: every part of the line at its shortest (boundaries of the parser's guards)
+		l := ""
+		if r.Intn(2) == 0 {
+			l += "@" + RandBytes(r, 1+r.Intn(2), "ab=;+") + " "
+		}
+		if r.Intn(2) == 0 {
+			l += ":" + RandBytes(r, 1+r.Intn(2), "ab!@.") + " "
+		}
+		l += Pick(r, "PING", "PING", "P", "PI", "001", "1", "JOIN", "NICK", "PRIVMSG")
+		for i := r.Intn(3); i > 0; i-- {
+			l += " " + RandBytes(r, 1, "ab#:")
+		}
+		return l + Pick(r, "\r\n", "\n", " \r\n", " :\r\n")
 	case 16, 17: // a mutated earlier line
 		if len(prev) > 0 {
 			return cdMutate(r, prev[r.Intn(len(prev))])
@@ -476,7 +517,7 @@ func reactGen(r *rand.Rand) Case {
 		n--
 		for _, l := range reactLines(reactGenRaw(r, lines)) {
 			// a line ParseEvent rejects ends the session: mostly keep those for the end
-			if girc.ParseEvent(l) == nil && r.Intn(8) != 0 && n > 0 {
+			if reactParse(l) == nil && r.Intn(8) != 0 && n > 0 {
 				continue
 			}
 			lines = append(lines, l)
@@ -527,6 +568,15 @@ func init() {
 func reactDirect(c Case) Result {
 	if len(c) < 6 {
 		return Result{Obs: "?bad-args"}
+	}
+	if os.Getenv("VERIF_ISOLATED_CHILD") == "1" {
+		// last resort: a session that cannot finish (a wait the harness did not foresee) ends the
+		// child, which the parent reports as process-death with the case as replay
+		wd := time.AfterFunc(60*time.Second, func() {
+			os.Stderr.WriteString("watchdog: the session did not finish within 60 s\n")
+			os.Exit(3)
+		})
+		defer wd.Stop()
 	}
 	for _, l := range c[6:] {
 		if !strings.HasSuffix(l, "\n") || strings.Count(l, "\n") != 1 {
